@@ -198,6 +198,35 @@ package raft
 //@   ensures [C05.term-monotone] c.term >= old(c.term)
 //@   ensures [C19.wf] CandWF(c)
 
+// the transfer privilege (set by onTimeoutNowRequest) is good for one candidacy only: leaving the
+// candidate state clears it, so a later ordinary election cannot depose a live leader (C16, C17)
+//@ func (*candidate).release
+//@   modifies c.respCh, c.transfer
+//@   ensures [C17+C16.transfer-single-use] !c.transfer
+//@   ensures [C01.stale-votes-dropped] c.respCh == nil
+
+//@ func (*candidate).init
+//@   requires CandWF(c)
+//@   requires [C11.candidate-is-voter] IsVoter(c.configs.Latest, c.nid)
+//@   requires c.term < 18446744073709551615
+//@   modifies c.votesNeeded, c.respCh, c.storage.term, c.storage.votedFor, c.storage.termVal.v1, c.storage.termVal.v2, fs, contents(c.connPools), all(c.timer)
+//@   maypanic OpError
+//@   ensures [C01.election-start] c.term == old(c.term) + 1 && c.votedFor == c.nid && DurableIs(c.storage, c.term, c.nid)
+//@   ensures [C01.votes-needed] c.votesNeeded == NumVoters(c.configs.Latest)/2 + 1 && isfresh(c.respCh)
+//@   ensures [C19.wf] CandWF(c)
+//@   panic_ensures [C05.crash-atomic] c.term == old(c.term) && c.votedFor == old(c.votedFor)
+
+//@ func (*candidate).onTimeout
+//@   requires CandWF(c)
+//@   requires [C11.candidate-is-voter] IsVoter(c.configs.Latest, c.nid)
+//@   requires c.term < 18446744073709551615
+//@   modifies c.votesNeeded, c.respCh, c.storage.term, c.storage.votedFor, c.storage.termVal.v1, c.storage.termVal.v2, fs, contents(c.connPools), all(c.timer)
+//@   maypanic OpError
+//@   ensures [C01.election-start] c.term == old(c.term) + 1 && c.votedFor == c.nid && DurableIs(c.storage, c.term, c.nid)
+//@   ensures [C01.votes-needed] c.votesNeeded == NumVoters(c.configs.Latest)/2 + 1 && isfresh(c.respCh)
+//@   ensures [C19.wf] CandWF(c)
+//@   panic_ensures [C05.crash-atomic] c.term == old(c.term) && c.votedFor == old(c.votedFor)
+
 // ---------------------------------------------------------------------------
 // follower (C11)
 
@@ -215,6 +244,22 @@ package raft
 //@   modifies f.leader, f.state, f.electionAborted
 //@   ensures [C11.no-campaign] f.state != old(f.state) ==> f.state == Candidate && IsVoter(f.configs.Latest, f.nid) && f.configs.Latest.Index > 0
 //@   ensures f.leader == 0
+
+//@ func (*follower).init
+//@   requires f.Raft != nil && f.timer != nil
+//@   modifies all(f.timer), f.electionAborted
+//@   ensures !f.electionAborted
+
+//@ func (*follower).release
+//@   modifies
+//@   ensures true
+
+// the election timer is re-armed only on a node that may campaign (C11)
+//@ func (*follower).resetTimer
+//@   requires f.Raft != nil && f.storage != nil && f.timer != nil
+//@   modifies all(f.timer), f.electionAborted
+//@   ensures [C11.no-campaign] !(f.configs.Latest.Index > 0 && IsVoter(f.configs.Latest, f.nid)) ==> f.electionAborted == old(f.electionAborted)
+//@   ensures f.configs.Latest.Index > 0 && IsVoter(f.configs.Latest, f.nid) ==> !f.electionAborted
 
 //@ func (*Raft).onTimeoutNowRequest
 //@   requires RaftWF(r) && r.cnd != nil
